@@ -68,9 +68,13 @@ Elems(s) ==
     [] s.kind \in {"values", "text"} -> s.vals
     [] s.kind \in {"buffer", "args"} -> IF HasTail(s) THEN Append(s.vals, RInt(TailVal(s))) ELSE s.vals
     [] s.kind = "factormax" -> <<>>
-    [] s.kind = "fill" -> IF s.fk = "bound"
-                          THEN [i \in 1..s.len |-> IF i = 1 THEN s.a ELSE IF i = s.len THEN s.c ELSE s.b]
-                          ELSE [i \in 1..s.len |-> RAdd(s.a, RDivI(RMul(RInt(i - 1), RSub(s.b, s.a)), s.len - 1))]
+    [] s.kind = "fill" ->         \* 0 points: nothing; 1 point: the last bound (linear) / the mean of the three (bound), as the code has it
+         IF s.len = 0 THEN <<>>
+         ELSE IF s.fk = "bound"
+         THEN (IF s.len = 1 THEN <<RDivI(RAdd(RAdd(s.a, s.b), s.c), 3)>>
+               ELSE [i \in 1..s.len |-> IF i = 1 THEN s.a ELSE IF i = s.len THEN s.c ELSE s.b])
+         ELSE (IF s.len = 1 THEN <<s.b>>
+               ELSE [i \in 1..s.len |-> RAdd(s.a, RDivI(RMul(RInt(i - 1), RSub(s.b, s.a)), s.len - 1))])
 
 (* Tier 2: are the doubles the code computes exactly the rationals? (all    *)
 (* operands dyadic and small: every operation of the code is then exact)    *)
@@ -83,7 +87,9 @@ ExactSrc(s) ==
     [] s.kind = "poly"     -> (\A i \in 1..Len(s.grid) : Dyadic(s.grid[i])) /\ (\A i \in 1..Len(s.co) : Dyadic(s.co[i]))
                               /\ (\A i \in 1..Len(s.sh) : Dyadic(s.sh[i]))
     [] s.kind \in {"values", "text", "buffer", "args"} -> \A i \in 1..Len(s.vals) : Dyadic(s.vals[i])
-    [] s.kind = "fill" -> Dyadic(s.a) /\ Dyadic(s.b) /\ Dyadic(s.c) /\ (s.fk = "bound" \/ Dyadic(RDivI(RSub(s.b, s.a), s.len - 1)))
+    [] s.kind = "fill" -> /\ Dyadic(s.a) /\ Dyadic(s.b) /\ Dyadic(s.c)
+                          /\ IF s.fk = "bound" THEN s.len # 1 \/ Dyadic(RDivI(RAdd(RAdd(s.a, s.b), s.c), 3))
+                             ELSE s.len <= 1 \/ Dyadic(RDivI(RSub(s.b, s.a), s.len - 1))
     [] OTHER -> TRUE
 
 (* Tier 1: how far a computed double may be from the exact element: 2^t     *)
